@@ -147,7 +147,7 @@ func runC07Tunnel(i int, tn c07Tunnel, c c07Case, o gwOpts, mkTarget func(user s
 	reqPort := P
 	if tn.Setup == "unreachable-host" {
 		// allowed by the policy, but the connection is refused: the tunnel gets an error, the others must not notice
-		reqPort = P + 3
+		reqPort = c07DeadPort()
 		tokenHost = net.JoinHostPort(ownHost, strconv.Itoa(reqPort))
 	}
 	units := [][]byte{tsgu.Handshake(1, byte(i), 0, o.serverCaps())}
@@ -324,9 +324,21 @@ func around(b []byte, at int) string {
 
 func atoi(s string) int { n, _ := strconv.Atoi(s); return n }
 
+var (
+	c07DeadOnce sync.Once
+	c07Dead     int
+)
+
+// c07DeadPort: a port this process has bound on every IPv4 address without listening on it, for as long as it runs:
+// connections to it are refused, and no other process (a gateway of another shard, say) can come to listen there.
+func c07DeadPort() int {
+	c07DeadOnce.Do(func() { c07Dead, _ = backend.Reserve("0.0.0.0") })
+	return c07Dead
+}
+
 func c07Opts(c c07Case, P int) gwOpts {
-	// the second entry is a port of the user's own address on which nothing listens (no grid uses P+3)
-	o := gwOpts{TokenAuth: c.TokenAuth, HostSelection: "roundrobin", Hosts: []string{"127.0.0." + placeholder + ":" + strconv.Itoa(P), "127.0.0." + placeholder + ":" + strconv.Itoa(P+3)}, VerifyIP: true}
+	// the second entry is a port of the user's own address on which nothing listens
+	o := gwOpts{TokenAuth: c.TokenAuth, HostSelection: "roundrobin", Hosts: []string{"127.0.0." + placeholder + ":" + strconv.Itoa(P), "127.0.0." + placeholder + ":" + strconv.Itoa(c07DeadPort())}, VerifyIP: true}
 	if c.Buffers {
 		o.SendBuf, o.ReceiveBuf = 262144, 262144
 	}
